@@ -746,7 +746,7 @@ PROPS = {
                  "operations are atomic in the model: a timer tick cancelling exchange_once() in the middle of a datagram (between the "
                  "table update and the socket send) is a runtime interleaving the paused clock cannot exhibit; read from the code: the "
                  "only await between them is UdpSocket::send",
-                 "the SOCKS5 forwarder's multiplexer (same UdpDatagramPipeShared contract) is read, not driven by this suite (C13 "
+                 "the SOCKS5 forwarder's multiplexer (same UdpDatagramPipeShared contract) is read, not driven by this suite (C15 "
                  "drives its association exchange)"],
         assumptions=["a stale reply could reach a new socket only if the kernel reused the ephemeral port within the history; ignored"],
     ),
